@@ -191,6 +191,17 @@ def batch_correspondence(ctx):
             ctx.fail(None, 'batching loses or reorders statements: %r -> %r' % ([w[0] for w in want], [g[0] for g in got]),
                      {'scenario': 'batching', 'groups': gs})
         else:
+            # the statements of ONE NewTransactionSQL group run in one transaction: they land in one batch
+            batch_of = [bi for bi, (b, _tx) in enumerate(batches) for _st in b]
+            pos = 0
+            for kind, ss in gs:
+                kept = [x.strip() for x in ss if x.strip() and not x.strip().startswith('--')]
+                if kind == 'new_tx' and len(set(batch_of[pos:pos + len(kept)])) > 1:
+                    ctx.fail(None, 'the statements of one NewTransactionSQL group %r are spread over %d batches: each batch '
+                             'is committed before the next starts' % (kept, len(set(batch_of[pos:pos + len(kept)]))),
+                             {'scenario': 'batching', 'groups': gs})
+                    break
+                pos += len(kept)
             wrong = [(w[0], w[1], g[1]) for w, g in zip(want, got) if w[1] is not g[1]]
             if wrong:
                 ctx.fail(None, 'statement %r is to run %s a transaction, but its batch is executed %s one'
@@ -423,7 +434,14 @@ def replay(ctx, obj):
         print('batches: ', [([st for st, _ in b], tx) for b, tx in batches])
         want = [(st, use) for st, _p, use, _n in prepared]
         got = [(st, tx) for b, tx in batches for st, _ in b]
-        return 0 if len(want) == len(got) and all(w[0] == g[0] and w[1] is g[1] for w, g in zip(want, got)) else 1
+        batch_of = [bi for bi, (b, _tx) in enumerate(batches) for _st in b]
+        pos, split = 0, False
+        for kind, ss in _r['groups']:
+            kept = [x.strip() for x in ss if x.strip() and not x.strip().startswith('--')]
+            if kind == 'new_tx' and len(set(batch_of[pos:pos + len(kept)])) > 1:
+                split = True
+            pos += len(kept)
+        return 0 if not split and len(want) == len(got) and all(w[0] == g[0] and w[1] is g[1] for w, g in zip(want, got)) else 1
     if isinstance(_r, dict) and _r.get('scenario'):
         print('this scenario (%s) is rebuilt by the check itself: VERIF_SEED=%s ./check C07' % (_r['scenario'], obj.get('seed')))
         return 0
